@@ -2,6 +2,7 @@
 from __future__ import annotations
 
 import ast
+import re
 
 from .. import absint as A
 from .. import lib as L
@@ -887,6 +888,7 @@ def _per_name_rule(repo, rep):
     must be a fresh object per element, so the statement parser may neither
     cache nor share its results."""
     keys = {}
+    ordinal = {}
     for q in ("_enter_assignment", "_leave_assignment"):
         f = repo.func(COMP + q)
         r = L.emission(repo, f.qualname)
@@ -904,6 +906,17 @@ def _per_name_rule(repo, rep):
                         or "each(" in txt
                     ok = okn and per_name
                     keys[q] = txt
+                    # ... and no two names of the list share one: the name
+                    # is mangled ('a-b' and 'a_b' read the same), so it is
+                    # preceded by its position in the list
+                    pre = ident.prefix if isinstance(ident, A.Ident) else None
+                    it_txt = A.show(lp.iter, limit=4)
+                    ordinal[q] = isinstance(pre, A.Fmt) and \
+                        isinstance(pre.fmt, str) and \
+                        bool(re.match(r"^[A-Za-z]*%d_", pre.fmt)) and \
+                        it_txt.startswith("enumerate(") and bool(pre.args) \
+                        and A.show(pre.args[0], limit=6) == \
+                        "each(%s)[0]" % it_txt
                     detail = "%s (per node: %s, per name: %s)" % (
                         txt, okn, per_name)
         rep.check(ok, "R05.2", f.qualname, "the backup local embeds the "
@@ -911,6 +924,17 @@ def _per_name_rule(repo, rep):
                   "names bound by one element do not share a backup",
                   construct="backup-per-name", where=L.where(f),
                   detail=detail)
+    if ordinal and all(ordinal.values()) and len(ordinal) == 2:
+        rep.check(True, "R05.2", COMP + "_enter_assignment", "two names of "
+                  "one definition list never share a backup local: its name "
+                  "leads with the position of the variable in the list "
+                  "(tal:define=\"(a-b, a_b) ...\" mangles both names to "
+                  "a_b)", construct="backup-name-injective",
+                  detail=str(sorted(keys.values())[:1]))
+    else:
+        from . import c09
+        L.borrow(repo, rep, "R05.2", "C09", c09._keys,
+                 ("slot-key-injective",))
     rep.check(len(set(keys.values())) == 1 and len(keys) == 2, "R05.2",
               COMP + "_leave_assignment", "save and restore name the backup "
               "local by the same expression", construct="backup-same-name",
